@@ -66,7 +66,13 @@ impl Check for C09 {
         unit_table(cfg.tier).len()
     }
     fn run_unit(&self, unit: usize, cx: &mut Cx) {
-        match unit_table(cx.cfg.tier)[unit] {
+        let t0 = std::time::Instant::now();
+        let u = unit_table(cx.cfg.tier)[unit];
+        let name = match u {
+            Unit::Lit { fam, .. } => fam.name(),
+            Unit::Ops { fam, .. } => fam.name(),
+        };
+        match u {
             Unit::Lit { fam, start, len } => {
                 let tier = cx.cfg.tier;
                 let cases: Vec<(u64, run::Case)> = match cx.only() {
@@ -83,6 +89,7 @@ impl Check for C09 {
                 ops::run(fam, start, len, cx);
             }
         }
+        cx.count(&format!("worker_ms:{name}"), t0.elapsed().as_millis() as u64);
     }
     fn describe(&self, cfg: &Cfg, unit: usize, sub: u64) -> Value {
         match unit_table(cfg.tier)[unit] {
@@ -183,6 +190,16 @@ fn main() {
                     println!("{}", fam.case(tier, i).json());
                 }
             }
+        }
+        return;
+    }
+    // `c09 --probe FILE`: compile the script in FILE and print the error report (for triage)
+    if a.len() >= 3 && a[1] == "--probe" {
+        let src = std::fs::read_to_string(&a[2]).expect("readable file");
+        let rt = host::runtime();
+        match host::compile(&rt, &src) {
+            Ok(_) => println!("compiles"),
+            Err(e) => println!("{e:?}"),
         }
         return;
     }
